@@ -515,6 +515,28 @@ def run_C06(ctx, proof_ok):
             "distribution": {"model_cases": n1, "physics_cases": n2, **{k: int(v) for k, v in dist2.items()}, "limit_cases": n3}}
 
 
+def run_C09(ctx, proof_ok):
+    import heapc
+
+    E = epg()
+    r = lib.rng(9)
+    n1, d1, dist1 = heapc.compare(r, E, budget(ctx.tier, 150, 3000), budget(ctx.tier, 25, 60))
+    seeds = [0, 1, 2, 3] if ctx.tier != "thorough" else list(range(0, 24)) + [12345, 4294967295]
+    n2, d2 = heapc.hashseed_sweep(seeds)
+    ctx.violations.extend(d1 + d2)
+    return {"evaluations": n1 + n2, "distinct_nontrivial": n1,
+            "rule": "random histories (length <= 25 quick / 60 thorough) of apply(op, handle, inplace) over 16 operator kinds (incl. "
+                    "differential declarations with partial derivatives, 1-D / n-D / float shifts, PD, SPOILER, System, D, C, "
+                    "MultiOperator, combined operators) drawn from a pool of reused operator objects, copy, simulate(init=handle, "
+                    "options) twice, probe acquisitions of 'states' / F0 / lambda / Z / F: run on epgpy and on the Lean object model; "
+                    "compared: result identity (in place / new object), no shared memory between handles of different cells nor "
+                    "between the partials of one handle, bit-identical content of every handle whose cell the model leaves untouched, "
+                    "operator objects unchanged and equal to fresh instances, simulate() repeatable and leaving init and its options "
+                    "alone, snapshots frozen; plus the same script under several PYTHONHASHSEED values (digests of signals, "
+                    "Jacobians, Hessians, CRLB, n-D states)",
+            "samples": [], "distribution": {"histories": n1, **{k: int(v) for k, v in dist1.items()}, "hash_seeds": n2}}
+
+
 def merge_results(a, b, rule):
     out = dict(a)
     out["evaluations"] = a["evaluations"] + b["evaluations"]
@@ -962,6 +984,20 @@ PROPS["C06"] = {
                 "to zero). The code's expm (eigendecomposition + solve) and the driver's scaled Taylor series are two numerical "
                 "stand-ins for that exponential: their agreement is checked by execution, not proved; axis moving / broadcasting of "
                 "the compartment axis is decided by the physics search only"],
+}
+
+PROPS["C09"] = {
+    "lean_modules": ["EpgVerif.Props.C09"],
+    "tie": [],
+    "audit": "EpgVerif/Audit/C09.lean",
+    "run": run_C09,
+    "replay": replay_generic,
+    "theorems_hint": ["version_after_history", "untouched_without_inplace", "fresh_result", "readonly_inplace_copies"],
+    "partial": ["the theorem is about the object-level model (handles on cells with update counters): in every history a cell is "
+                "updated exactly by the in-place applications that target it, and out-of-place results, copies and snapshots are "
+                "fresh cells. That epgpy's objects follow this model (prepare/copy discipline, deep copies of every array, snapshot "
+                "copies in acquire) is established by the history correspondence only; CPython object semantics, numpy views and "
+                "the interpreter hash seed are outside any Lean model and are covered by execution (hash-seed sweep)"],
 }
 
 NOT_CLAIMED = {}
